@@ -10,7 +10,7 @@ import ast
 from .. import AnalysisError, AnchorMissing
 from ..cfg import cfg_of
 from ..model import own_nodes
-from ..values import pattern, match, match_any, find, contains, show, subterms
+from ..values import term_kwargs, pattern, match, match_any, find, contains, show, subterms
 from ..domains import polarity, POS, NEG, ZERO
 from .base import obligation, src, callee_name, if_branches, split_if
 from .C04 import pattern_term, returns, enclosing_loop, _inside
@@ -237,7 +237,7 @@ def c07_c(ctx):
         okp = False
         if rr:
             rt = exr.term(rr[-1].value)
-            kws = dict(rt[3]) if rt[0] == 'call' else {}
+            kws = term_kwargs(rt)
             pv = kws.get('populations')
             okp = pv is not None and match_any(pv, ('self._populations.copy()',
                                                     'list(self._populations)',
